@@ -245,13 +245,24 @@ def relations(ctx, rng, npr, case, reg):
 def kwd_sequences(ctx, rng, npr, reg, names):
     """the same named metric fitted repeatedly in one process with DIFFERENT metric_kwds values, on dense and on CSR input (the sparse
     small-data path reaches umap's own pairwise fallback): every fit must equal the precomputed fit on its own distances"""
-    for m in ("minkowski", "wminkowski", "seuclidean"):
+    # "seuclidean:V" / "mahalanobis:VI": the array keyword under SciPy's name (UMAP passes keyword VALUES positionally to its own metric,
+    # so any name is accepted; names its registry does not know take the generic pairwise fallback also for dense input)
+    ALT = {"V": "sigma", "VI": "vinv"}
+    for mk in ("minkowski", "wminkowski", "seuclidean", "seuclidean:V", "mahalanobis", "mahalanobis:VI"):
+        m, _, alt = mk.partition(":")
         if m not in names:
             continue
         n, k = rng.randint(24, 34), rng.randint(4, 7)
         X = gen_data(rng, npr, m, n)
         dim = X.shape[1]
-        if m == "minkowski":
+        if m == "mahalanobis":
+            def spd(scale):
+                a = npr.normal(size=(dim, dim)) * scale
+                return a @ a.T / dim + np.eye(dim)
+            kws = [{alt or "vinv": spd(1.0)}, {alt or "vinv": spd(3.0)}, {alt or "vinv": np.eye(dim)}]
+        elif alt:
+            kws = [{alt: (np.abs(npr.normal(size=dim)) + 0.3)}, {alt: (np.abs(npr.normal(size=dim)) * 3 + 0.3)}, {alt: np.ones(dim)}]
+        elif m == "minkowski":
             kws = [{"p": 3.0}, {"p": 1.5}, {"p": 3.0}]
         elif m == "wminkowski":
             kws = [{"w": (np.abs(npr.normal(size=dim)) + 0.3), "p": 2.0}, {"w": (np.abs(npr.normal(size=dim)) * 3 + 0.3), "p": 2.0}]
@@ -261,7 +272,7 @@ def kwd_sequences(ctx, rng, npr, reg, names):
             for step, kw in enumerate(kws):
                 case = dict(metric=m, X=X, kw=kw, n=n, k=k, r=1.0, lc=1)
                 try:
-                    D = pairwise(reg[m], X, kw)
+                    D = pairwise(reg[m], X, {ALT.get(a_, a_): v_ for a_, v_ in kw.items()})
                     D = np.where(np.eye(n, dtype=bool), 0.0, D)
                     g_pre = fit_graph(D, "precomputed", k, 1.0, 1)
                 except Exception as e:
